@@ -78,6 +78,12 @@ func validateJSONPatches(patches []byte) error {
 			if err := validateJSONPointer(from); err != nil {
 				return err
 			}
+
+			// copying or moving a location into one of its own children makes the patch library
+			// build a cyclic document (RFC 6902: 'from' must not be a proper prefix of 'path')
+			if strings.HasPrefix(path, from+"/") {
+				return fmt.Errorf("%s: cannot copy or move '%s' into its own child '%s'", patch.JSONPatch, from, path)
+			}
 		}
 	}
 
